@@ -22,10 +22,12 @@ def gen(ctx):
             for verdict in ("ok", "wrong", "ack5", "close", "cut", "garbage", "rerr", "werr", "two", "listack", "fieldsack", "listok", "fieldsok"):
                 g = rng.choice(greet)
                 cf = L.conf(pw=(b"other" if verdict == "wrong" else pw))
+                # the server may take its time over the verdict (seconds, minutes): the outcome is the verdict's, whenever it comes
+                wait = rng.choice([[], [], ["t9000"], ["t11000"], ["t30000", "t45000"], ["t3600000"]])
                 if verdict == "ok":
-                    labels = g + ["S*", rng.choice(["D0", "D1"]), "D0", "S*", "i1:" + L.spec("echo", "a")] + L.flush(1)
+                    labels = g + wait + ["S*"] + wait + [rng.choice(["D0", "D1"]), "D0", "S*", "i1:" + L.spec("echo", "a")] + L.flush(1)
                 elif verdict == "wrong":
-                    labels = g + ["S*", "D0", "t200", "S*", "D0"]
+                    labels = g + wait + ["S*"] + wait + ["D0", "t200", "S*", "D0"]
                 elif verdict == "ack5":
                     labels = g + ["G:" + hexs(b"ACK [5@0] {} unknown command \"password\"\n"), "t200"]
                 elif verdict == "listack":     # the verdict is the ACK wherever it stands in the reply
